@@ -1,6 +1,461 @@
 package main
 
-import "verif/harness/lib"
+// Semantic direction of C09 — SEARCH ONLY, PARTIAL (the bodies of the standard library are not
+// modelled; nothing here is a proof).
+//
+// For a sample of invocable entries (pure functions/methods of strings, bytes, strconv, fmt, path, …)
+// and every argument position i whose type can carry a marker, one case is generated:
+//
+//	a_i := source_<sid>()            // a value containing the unique marker of the case
+//	a_k := neutral value (k != i)
+//	r… := pkg.F(a…)                   // or recv.M(a…)
+//	sink_<sid*16+j>(r_j) …            // every result
+//	sink_<sid*16+8+k>(a_k) …          // every other pointer-like argument (and the receiver) after the call
+//
+// The program is (1) executed natively with sinks that walk their argument (reflect, unexported
+// fields included) looking for the marker: the flows some execution exhibits; (2) analysed by the
+// REAL taint analysis. A flow observed natively that the tool does not report is a concrete failing
+// input of the property (key std-flow:<entry>:<i>-><target>).
 
-// semanticSearch: see the final version below (native marker runs). Placeholder until implemented.
-func semanticSearch(rep *lib.Report, entries map[string]*entry, order []string) {}
+import (
+	"bytes"
+	"fmt"
+	"go/ast"
+	"go/types"
+	"os"
+	"os/exec"
+	"path/filepath"
+	"sort"
+	"strconv"
+	"strings"
+
+	"golang.org/x/tools/go/ssa"
+	"verif/harness/lib"
+	"verif/harness/taintrun"
+)
+
+type semFn struct {
+	f   *ssa.Function
+	key string
+}
+
+// how to build a value of a type: marker expression (printf with the marker text), neutral expression
+type synth struct {
+	marker  string // Go expression containing %[1]s = marker text ("" = the type cannot carry a marker)
+	neutral string
+	ptrLike bool // sink the argument after the call
+	imports []string
+}
+
+const mk = `"%[1]s"`
+
+var synths = map[string]synth{
+	"string":           {mk, `"n"`, false, nil},
+	"[]byte":           {`[]byte(` + mk + `)`, `[]byte("n")`, true, nil},
+	"[]string":         {`[]string{"a", ` + mk + `}`, `[]string{"n", "m"}`, true, nil},
+	"[]rune":           {`[]rune(` + mk + `)`, `[]rune("n")`, true, nil},
+	"any":              {`any(` + mk + `)`, `any("n")`, false, nil},
+	"[]any":            {`[]any{` + mk + `}`, `[]any{"n"}`, true, nil},
+	"error":            {`errors.New(` + mk + `)`, `errors.New("n")`, false, []string{"errors"}},
+	"io.Reader":        {`strings.NewReader(` + mk + `)`, `strings.NewReader("n")`, true, []string{"strings"}},
+	"io.Writer":        {`bytes.NewBufferString(` + mk + `)`, `new(bytes.Buffer)`, true, []string{"bytes"}},
+	"*bytes.Buffer":    {`bytes.NewBufferString(` + mk + `)`, `new(bytes.Buffer)`, true, []string{"bytes"}},
+	"*strings.Builder": {`mkBuilder(` + mk + `)`, `new(strings.Builder)`, true, []string{"strings"}},
+	"*strings.Reader":  {`strings.NewReader(` + mk + `)`, `strings.NewReader("n")`, true, []string{"strings"}},
+	"*bytes.Reader":    {`bytes.NewReader([]byte(` + mk + `))`, `bytes.NewReader([]byte("n"))`, true, []string{"bytes"}},
+	"*bufio.Reader":    {`bufio.NewReader(strings.NewReader(` + mk + `))`, `bufio.NewReader(strings.NewReader("n"))`, true, []string{"bufio", "strings"}},
+	"*bufio.Scanner":   {`bufio.NewScanner(strings.NewReader(` + mk + `))`, `bufio.NewScanner(strings.NewReader("n"))`, true, []string{"bufio", "strings"}},
+	"*regexp.Regexp":   {`regexp.MustCompile(` + mk + `)`, `regexp.MustCompile("n")`, true, []string{"regexp"}},
+	"int":              {"", "1", false, nil},
+	"int64":            {"", "int64(1)", false, nil},
+	"uint64":           {"", "uint64(1)", false, nil},
+	"float64":          {"", "1.5", false, nil},
+	"bool":             {"", "true", false, nil},
+	"byte":             {"", "byte('x')", false, nil},
+	"rune":             {"", "'x'", false, nil},
+	"*any":             {`ptrAny(` + mk + `)`, `new(any)`, true, nil},
+}
+
+var semPackages = map[string]bool{"strings": true, "bytes": true, "strconv": true, "fmt": true, "path": true,
+	"path/filepath": true, "errors": true, "regexp": true, "bufio": true, "html": true, "io": true,
+	"encoding/json": true, "net/url": true, "unicode/utf8": true, "sort": true}
+
+var semDeny = map[string]bool{"Walk": true, "WalkDir": true, "Glob": true, "Print": true, "Printf": true, "Println": true,
+	"Scan": true, "Scanf": true, "Scanln": true, "Abs": true, "EvalSymlinks": true, "Pipe": true, "ReadFile": true}
+
+func qual(p *types.Package) string { return p.Name() }
+
+func semanticSearch(rep *lib.Report, fns []semFn) {
+	type arg struct {
+		ty string
+		sy synth
+	}
+	type scase struct {
+		fn    semFn
+		args  []arg // receiver first
+		recv  bool
+		nres  int
+		pkg   *types.Package
+		call  string // format with args
+		names []string
+	}
+	var cs []*scase
+	sort.Slice(fns, func(i, j int) bool { return fns[i].key < fns[j].key })
+	for _, fn := range fns {
+		f := fn.f
+		if f.Pkg == nil && f.Object() == nil {
+			continue
+		}
+		obj, _ := f.Object().(*types.Func)
+		if obj == nil || obj.Pkg() == nil || !semPackages[obj.Pkg().Path()] || !ast.IsExported(f.Name()) || semDeny[f.Name()] || f.Synthetic != "" {
+			continue
+		}
+		sig := f.Signature
+		if sig.TypeParams().Len() > 0 || sig.RecvTypeParams().Len() > 0 {
+			continue
+		}
+		c := &scase{fn: fn, nres: sig.Results().Len(), pkg: obj.Pkg()}
+		ok := true
+		add := func(t types.Type, variadic bool) {
+			ts := types.TypeString(t, qual)
+			if variadic {
+				// the last parameter of a variadic function: pass one element
+				ts = types.TypeString(t.(*types.Slice).Elem(), qual)
+			}
+			ts = strings.ReplaceAll(ts, "interface{}", "any")
+			sy, has := synths[ts]
+			if !has {
+				ok = false
+				return
+			}
+			c.args = append(c.args, arg{ts, sy})
+		}
+		if sig.Recv() != nil {
+			if named, isNamed := derefNamed(sig.Recv().Type()); !isNamed || !ast.IsExported(named.Obj().Name()) {
+				continue
+			}
+			c.recv = true
+			add(sig.Recv().Type(), false)
+		}
+		for i := 0; i < sig.Params().Len() && ok; i++ {
+			add(sig.Params().At(i).Type(), sig.Variadic() && i == sig.Params().Len()-1)
+		}
+		if !ok || len(c.args) == 0 || len(c.args) > 6 || c.nres > 6 {
+			continue
+		}
+		hasMarker := false
+		for _, a := range c.args {
+			if a.sy.marker != "" {
+				hasMarker = true
+			}
+		}
+		if hasMarker {
+			cs = append(cs, c)
+		}
+	}
+	// every invocable entry in both tiers (the native run and one analyser load are cheap); the cap only
+	// guards against a table that grows a lot
+	maxEntries := 400
+	if len(cs) > maxEntries {
+		// seeded sample, always keeping the rows named in the property text
+		r := lib.Rand("c09-sem")
+		r.Shuffle(len(cs), func(i, j int) { cs[i], cs[j] = cs[j], cs[i] })
+		sort.SliceStable(cs, func(i, j int) bool { return pri(cs[i].fn.key) > pri(cs[j].fn.key) })
+		cs = cs[:maxEntries]
+	}
+	if len(cs) == 0 {
+		rep.Extra["semantic_entries"] = 0
+		return
+	}
+	// ---- generate
+	imports := map[string]bool{"strings": true}
+	var body, calls, srcs strings.Builder
+	sinkIDs := map[int]bool{}
+	type sub struct {
+		c    *scase
+		i    int
+		sid  int
+		text string // source function + case function, for stand-alone replay files
+		imps []string
+	}
+	var subs []sub
+	sid := 0
+	for ci, c := range cs {
+		imports[c.pkg.Path()] = true
+		for _, a := range c.args {
+			for _, im := range a.sy.imports {
+				imports[im] = true
+			}
+		}
+		for i, a := range c.args {
+			if a.sy.marker == "" {
+				continue
+			}
+			sid++
+			marker := fmt.Sprintf("MK%dQz", sid)
+			srcLine := fmt.Sprintf("func source_%d() %s { return %s }\n", sid, a.ty, fmt.Sprintf(a.sy.marker, marker))
+			srcs.WriteString(srcLine)
+			bodyStart := body.Len()
+			fmt.Fprintf(&body, "// %s, marker in argument %d\nfunc case_%d_%d() {\n\tdefer func() { recover() }()\n", c.fn.key, i, ci, i)
+			var names []string
+			for k, ak := range c.args {
+				if k == i {
+					fmt.Fprintf(&body, "\ta%d := source_%d()\n", k, sid)
+				} else {
+					fmt.Fprintf(&body, "\ta%d := %s\n", k, ak.sy.neutral)
+				}
+				names = append(names, fmt.Sprintf("a%d", k))
+			}
+			var rs []string
+			for j := 0; j < c.nres; j++ {
+				rs = append(rs, fmt.Sprintf("r%d", j))
+			}
+			lhs := ""
+			if len(rs) > 0 {
+				lhs = strings.Join(rs, ", ") + " := "
+			}
+			variadic := c.fn.f.Signature.Variadic()
+			callArgs := names
+			target := qual(c.pkg) + "." + c.fn.f.Name()
+			if c.recv {
+				target = "a0." + c.fn.f.Name()
+				callArgs = names[1:]
+			}
+			_ = variadic
+			fmt.Fprintf(&body, "\t%s%s(%s)\n", lhs, target, strings.Join(callArgs, ", "))
+			for j := range rs {
+				id := sid*16 + j
+				sinkIDs[id] = true
+				fmt.Fprintf(&body, "\tsink_%d(r%d)\n", id, j)
+			}
+			for k, ak := range c.args {
+				if k != i && ak.sy.ptrLike {
+					id := sid*16 + 8 + k
+					sinkIDs[id] = true
+					fmt.Fprintf(&body, "\tsink_%d(a%d)\n", id, k)
+				}
+			}
+			body.WriteString("}\n\n")
+			fmt.Fprintf(&calls, "\tcase_%d_%d()\n", ci, i)
+			imps := map[string]bool{c.pkg.Path(): true, "strings": true}
+			for _, ak := range c.args {
+				for _, im := range ak.sy.imports {
+					imps[im] = true
+				}
+			}
+			var il []string
+			for im := range imps {
+				il = append(il, im)
+			}
+			sort.Strings(il)
+			subs = append(subs, sub{c: c, i: i, sid: sid, text: srcLine + "\n" + body.String()[bodyStart:] + fmt.Sprintf("func main() { case_%d_%d() }\n", ci, i), imps: il})
+		}
+	}
+	var ims []string
+	for p := range imports {
+		ims = append(ims, p)
+	}
+	sort.Strings(ims)
+	var main strings.Builder
+	main.WriteString("package main\n\nimport (\n")
+	for _, p := range ims {
+		fmt.Fprintf(&main, "\t%q\n", p)
+	}
+	main.WriteString(")\n\nvar _ = strings.Contains\n\nfunc mkBuilder(s string) *strings.Builder { b := new(strings.Builder); b.WriteString(s); return b }\nfunc ptrAny(s string) *any { var x any = s; return &x }\n\n")
+	main.WriteString(srcs.String())
+	main.WriteString("\n")
+	main.WriteString(body.String())
+	main.WriteString("func main() {\n" + calls.String() + "}\n")
+	var ids []int
+	for id := range sinkIDs {
+		ids = append(ids, id)
+	}
+	sort.Ints(ids)
+	var stub, gt strings.Builder
+	stub.WriteString("//go:build !gt\n\npackage main\n\n")
+	gt.WriteString("//go:build gt\n\npackage main\n\nimport (\n\t\"fmt\"\n\t\"reflect\"\n\t\"strings\"\n)\n\n")
+	for _, id := range ids {
+		fmt.Fprintf(&stub, "func sink_%d(x any) {}\n", id)
+		fmt.Fprintf(&gt, "func sink_%d(x any) { observe(%d, x) }\n", id, id)
+	}
+	gt.WriteString(gtRuntime)
+	dir := lib.WorkDir(prop, "semantic")
+	lib.WriteProgram(dir, "vsem", map[string]string{"main.go": main.String(), "rt_stub.go": stub.String(), "rt_gt.go": gt.String()})
+
+	// ---- native run
+	bin := filepath.Join(dir, "gt.bin")
+	build := exec.Command("go", "build", "-tags", "gt", "-o", bin, ".")
+	build.Dir = dir
+	build.Env = append(os.Environ(), "GOFLAGS=-mod=mod", "GOPROXY=off", "GOSUMDB=off", "GOTOOLCHAIN=local", "GOWORK=off")
+	if out, err := build.CombinedOutput(); err != nil {
+		rep.Fail("harness-semantic-build", "generated marker program does not build: "+string(out), []byte(main.String()), true)
+		return
+	}
+	run := exec.Command(bin)
+	run.Dir = dir
+	var so, se bytes.Buffer
+	run.Stdout, run.Stderr = &so, &se
+	if err := run.Run(); err != nil {
+		rep.Fail("harness-semantic-run", "generated marker program failed: "+err.Error()+" "+se.String(), []byte(main.String()), true)
+		return
+	}
+	native := map[[2]int]bool{}
+	for _, line := range strings.Split(so.String()+"\n"+se.String(), "\n") {
+		var s, k int
+		if n, _ := fmt.Sscanf(line, "OBS %d %d", &s, &k); n == 2 {
+			native[[2]int{s, k}] = true
+		}
+	}
+	// ---- real taint analysis
+	res := taintrun.Run(dir, taintrun.Options{SourceRe: `^source_\d+$`, SinkRe: `^sink_\d+$`})
+	if !res.OK() {
+		rep.Fail("harness-semantic-analysis", fmt.Sprintf("taint analysis of the marker program did not complete: %v %s", res.LoadErr, firstLine(res.Panic)), []byte(main.String()), true)
+		return
+	}
+	tool := res.IDPairs()
+	nFlows, nMissed := 0, 0
+	for _, s := range subs {
+		rep.Count("semantic:cases")
+		for p := range native {
+			if p[0] != s.sid || p[1]/16 != s.sid {
+				continue
+			}
+			nFlows++
+			slot := p[1] % 16
+			target := fmt.Sprintf("r%d", slot)
+			if slot >= 8 {
+				target = fmt.Sprintf("a%d", slot-8)
+			}
+			if !tool[p] {
+				nMissed++
+				key := fmt.Sprintf("std-flow:%s:%d->%s", s.c.fn.key, s.i, target)
+				what := fmt.Sprintf("%s (%s): the marker planted in argument %d reaches %s at run time, the taint analysis reports no flow from source_%d to sink_%d", s.c.fn.key, s.c.fn.f.Signature, s.i, target, p[0], p[1])
+				var im strings.Builder
+				for _, x := range s.imps {
+					fmt.Fprintf(&im, "\t%q\n", x)
+				}
+				var sk strings.Builder
+				for id := s.sid * 16; id < s.sid*16+16; id++ {
+					if sinkIDs[id] {
+						fmt.Fprintf(&sk, "func sink_%d(x any) {} // natively: walks x looking for the marker\n", id)
+					}
+				}
+				standalone := fmt.Sprintf("// %s\n// native run of the generated program printed: OBS %d %d\n// replay: argot taint with sources ^source_\\d+$ and sinks ^sink_\\d+$ on this file reports no flow from source_%d to sink_%d\npackage main\n\nimport (\n%s)\n\nvar _ = strings.Contains\n\nfunc mkBuilder(s string) *strings.Builder { b := new(strings.Builder); b.WriteString(s); return b }\nfunc ptrAny(s string) *any { var x any = s; return &x }\n\n%s\n%s", what, p[0], p[1], p[0], p[1], im.String(), s.text, sk.String())
+				rep.Fail(key, what, []byte(standalone), false)
+			}
+		}
+	}
+	rep.Extra["semantic_entries"] = len(cs)
+	rep.Extra["semantic_cases"] = len(subs)
+	rep.Extra["semantic_native_flows"] = nFlows
+	rep.Extra["semantic_flows_missed_by_tool"] = nMissed
+	rep.Notes = append(rep.Notes, "semantic direction is a search over a sample of invocable entries (native marker runs vs the real taint analysis), not a proof")
+}
+
+func firstLine(s string) string {
+	if i := strings.IndexByte(s, '\n'); i >= 0 {
+		return s[:i]
+	}
+	return s
+}
+
+func pri(key string) int {
+	switch key {
+	case "strings.Join", "fmt.Sprintf", "strconv.Itoa", "strings.Replace", "(*bytes.Buffer).WriteString", "path.Join":
+		return 1
+	}
+	return 0
+}
+
+func derefNamed(t types.Type) (*types.Named, bool) {
+	if p, ok := t.(*types.Pointer); ok {
+		t = p.Elem()
+	}
+	n, ok := t.(*types.Named)
+	return n, ok
+}
+
+var _ = strconv.Itoa
+
+const gtRuntime = `
+// observe walks x (unexported fields included) and prints OBS <sid> <sink> when the marker of the
+// case is found in a string, byte slice or rune slice.
+func observe(id int, x any) {
+	marker := fmt.Sprintf("MK%dQz", id/16)
+	seen := map[uintptr]bool{}
+	if walk(reflect.ValueOf(x), strings.ToLower(marker), seen, 0) {
+		fmt.Printf("OBS %d %d\n", id/16, id)
+	}
+}
+
+func has(s, marker string) bool { return strings.Contains(strings.ToLower(s), marker) }
+
+func walk(v reflect.Value, marker string, seen map[uintptr]bool, depth int) bool {
+	if !v.IsValid() || depth > 12 {
+		return false
+	}
+	switch v.Kind() {
+	case reflect.String:
+		return has(v.String(), marker)
+	case reflect.Slice, reflect.Array:
+		if v.Kind() == reflect.Slice && v.IsNil() {
+			return false
+		}
+		if v.Type().Elem().Kind() == reflect.Uint8 {
+			b := make([]byte, v.Len())
+			for i := range b {
+				b[i] = byte(v.Index(i).Uint())
+			}
+			// also the bytes beyond len (a Buffer keeps written data in its capacity)
+			if v.Kind() == reflect.Slice && v.Cap() > v.Len() {
+				w := v.Slice(0, v.Cap())
+				b = make([]byte, w.Len())
+				for i := range b {
+					b[i] = byte(w.Index(i).Uint())
+				}
+			}
+			return has(string(b), marker)
+		}
+		if v.Type().Elem().Kind() == reflect.Int32 {
+			r := make([]rune, v.Len())
+			for i := range r {
+				r[i] = rune(v.Index(i).Int())
+			}
+			return has(string(r), marker)
+		}
+		for i := 0; i < v.Len(); i++ {
+			if walk(v.Index(i), marker, seen, depth+1) {
+				return true
+			}
+		}
+	case reflect.Pointer:
+		if v.IsNil() || seen[v.Pointer()] {
+			return false
+		}
+		seen[v.Pointer()] = true
+		return walk(v.Elem(), marker, seen, depth+1)
+	case reflect.Interface:
+		if v.IsNil() {
+			return false
+		}
+		return walk(v.Elem(), marker, seen, depth+1)
+	case reflect.Struct:
+		for i := 0; i < v.NumField(); i++ {
+			if walk(v.Field(i), marker, seen, depth+1) {
+				return true
+			}
+		}
+	case reflect.Map:
+		if v.IsNil() {
+			return false
+		}
+		it := v.MapRange()
+		for it.Next() {
+			if walk(it.Key(), marker, seen, depth+1) || walk(it.Value(), marker, seen, depth+1) {
+				return true
+			}
+		}
+	}
+	return false
+}
+`
